@@ -1,11 +1,11 @@
 package main
 
 import (
-	"go.amzn.com/verifharness/vh"
-	"time"
-	"fmt"
 	"bytes"
+	"fmt"
+	"go.amzn.com/verifharness/vh"
 	"strings"
+	"time"
 )
 
 // C15 — platform lifecycle events form a well-nested, truthful trace.
